@@ -348,11 +348,24 @@ def translate(repo, record=False):
 
 
 def regen(ctx, coqdir, repo):
-    gen = os.path.join(coqdir, "C09", "Gen.v")
     try:
-        text = translate(repo)
+        from props import c09_lenpath
+    except ImportError:
+        import c09_lenpath
+    gen = os.path.join(coqdir, "C09", "Gen.v")
+    # the array-length path (realize_c_type.c -> new_array_type) is regenerated independently of the cparser.py part:
+    # it never falls back to the snapshot (what cannot be followed becomes a hop of width 0 = broken obligation)
+    lenpath = c09_lenpath.coq_text(c09_lenpath.length_path(repo))
+    try:
+        text = translate(repo) + lenpath
     except (Untranslatable, OSError, SyntaxError) as e:
-        ctx.translator("C09/Gen.v", "fallback: %s" % e)
+        try:
+            old = open(gen).read()
+            cut = old.find(c09_lenpath.MARKER)
+            py2coq.write_if_changed(gen, (old[:cut] if cut >= 0 else old) + lenpath)
+        except OSError:
+            pass
+        ctx.translator("C09/Gen.v", "fallback: %s (length_path regenerated)" % e)
         return False
     ctx.translator("C09/Gen.v", py2coq.write_if_changed(gen, text))
     return True
